@@ -152,6 +152,37 @@ impl Sched {
         g.status[me] = St::Running;
     }
 
+    /// A thread asks for a lock it already holds.  For a mutex (or a write request) its probe is false and the
+    /// ordinary deadlock detection fires.  For a second READ of an RwLock the probe succeeds here, but the std
+    /// RwLock prefers writers: if another thread is waiting for the same lock (it can only be waiting for the write
+    /// side, readers are not blocked by a reader), the real second read blocks behind it forever.
+    fn check_recursive_read(&self, me: usize, name: &'static str) {
+        let mut g = self.inner.lock().unwrap();
+        if g.abort {
+            return;
+        }
+        let mut waiting_writer: Option<usize> = None;
+        for (t, st) in g.status.iter().enumerate() {
+            if t == me {
+                continue;
+            }
+            if let St::Parked { probe: Some(p), site } = st {
+                // SAFETY: see `decide`.
+                if *site == name && !unsafe { (*p.0)() } {
+                    waiting_writer = Some(t);
+                }
+            }
+        }
+        if let Some(t) = waiting_writer {
+            g.deadlock = Some(format!("T{me} requests {name} for reading while it holds it and T{t} waits for the write side (writer-preferring RwLock: both wait forever)"));
+            g.abort = true;
+            g.current = None;
+            drop(g);
+            self.cv.notify_all();
+            std::panic::resume_unwind(Box::new(AbortToken));
+        }
+    }
+
     fn start(&self, me: usize) {
         let mut g = self.inner.lock().unwrap();
         g.status[me] = St::Parked { probe: None, site: "start" };
@@ -225,6 +256,9 @@ impl Hooks for ThreadHooks {
     fn before_lock(&self, name: &'static str, probe: &dyn Fn() -> bool) {
         if ATOMIC.with(|a| a.get()) && probe() {
             return;
+        }
+        if self.held.lock().unwrap().contains(&name) && probe() {
+            self.sched.check_recursive_read(self.tid, name);
         }
         // SAFETY: lifetime erasure; see ProbePtr.
         let p: *const (dyn Fn() -> bool + '_) = probe;
